@@ -675,7 +675,7 @@ def explore(ctx, factor, bs):
             for enk in (False, True):
                 args_case(ctx, skip, odk, enk)
     # (b) cleaner, function level
-    n_clean = ctx.pick(2500, 120000) * min(factor, 3)
+    n_clean = ctx.pick(2000, 120000) * min(factor, 3)
     for i in range(n_clean):
         cleaner_case(ctx, gen_stderr(rng, p_odd=0.0))
     # directed shapes: marker assembled by deleting exception names (C18-F1, repaired); guard of cleaner_paths_to_refs (C18-F2)
@@ -706,8 +706,9 @@ def explore(ctx, factor, bs):
                     continue
                 if f.get("few_outcomes") and outcome is not outs[0] and outcome is not outs[1]:
                     continue
-                if f.get("fault") and outcome["tag"] not in ("exit0-silent", "exit>0-named-paths", "java-absent", "killed"):
-                    continue  # the validator is never reached behind a failed write: a few environments suffice
+                limited = f.get("fault") or fid in ("early", "late", "lang")
+                if limited and outcome["tag"] not in ("exit0-silent", "exit0-stderr", "exit>0-named-paths", "java-absent", "killed"):
+                    continue  # validator never reached (failed write, conversion error) / same path as `warn`: a few environments suffice
                 for mode in modes(rng):
                     if f.get("lib_only"):
                         if mode["kind"] != "lib":
